@@ -10,6 +10,7 @@ import (
 	"io"
 	"sort"
 	"strings"
+	"sync"
 	"time"
 
 	"github.com/janelia-flyem/dvid/datatype/common/downres"
@@ -429,6 +430,85 @@ func (s *pyrSess) bodySplitEpisode(p *pyrVer) {
 	s.checkPyramid(p)
 }
 
+// idleEpisode: a mutating write is held (yield hook) just before its last lower-resolution level is computed; in
+// that state the volume must not report itself idle.  If it does, the stale top level is read as evidence.
+func (s *pyrSess) idleEpisode(p *pyrVer) {
+	// a block with data, so that every level has something to compute
+	s.writeBlockMode(p, c14Lo, c14Lo, c14Lo, 1)
+	s.settle()
+	parked := make(chan struct{})
+	release := make(chan struct{})
+	var once sync.Once
+	calls := 0
+	var mu sync.Mutex
+	dvid.VerifYieldFunc = func(site string) {
+		if site != "downres.Execute" {
+			return
+		}
+		mu.Lock()
+		calls++
+		k := calls
+		mu.Unlock()
+		if k == s.maxLvl { // before the last level of this mutation
+			once.Do(func() { close(parked) })
+			<-release
+		}
+	}
+	blk := make([]uint64, c14B*c14B*c14B)
+	sv := s.nextSV
+	s.nextSV++
+	for i := range blk {
+		blk[i] = sv
+	}
+	done := make(chan Resp, 1)
+	go func() {
+		done <- Post(fmt.Sprintf("node/%s/lm/raw/0_1_2/%d_%d_%d/%d_%d_%d?mutate=true", p.uuid, c14B, c14B, c14B, c14Lo*c14B, c14Lo*c14B, c14Lo*c14B), u64le(blk))
+	}()
+	idleWhileParked := false
+	select {
+	case <-parked:
+		idle := make(chan struct{})
+		go func() { downres.BlockOnUpdating(dvid.UUID(s.root), "lm"); close(idle) }()
+		select {
+		case <-idle:
+			idleWhileParked = true
+		case <-time.After(1500 * time.Millisecond):
+		}
+	case <-time.After(10 * time.Second):
+	}
+	var evidence string
+	if idleWhileParked {
+		if top, _ := s.getLevel(p.uuid, s.maxLvl); top != nil {
+			n := c14N >> uint(s.maxLvl)
+			if top[0] != sv {
+				evidence = fmt.Sprintf("level %d voxel (%d,%d,%d) still reads %d while level 0 beneath it was overwritten with supervoxel %d (region edge %d)", s.maxLvl, c14Off>>uint(s.maxLvl), c14Off>>uint(s.maxLvl), c14Off>>uint(s.maxLvl), top[0], sv, n)
+			}
+		}
+	}
+	close(release)
+	rr := <-done
+	dvid.VerifYieldFunc = nil
+	s.log("POST raw block (%d,%d,%d) all supervoxel %d mutate=true at v%d, held before level %d -> %d", c14Lo, c14Lo, c14Lo, sv, p.v, s.maxLvl, rr.Code)
+	if rr.OK() {
+		ox, oy, oz := 0, 0, 0
+		for z := 0; z < c14B; z++ {
+			for y := 0; y < c14B; y++ {
+				for x := 0; x < c14B; x++ {
+					p.vox[((oz+z)*c14N+oy+y)*c14N+ox+x] = sv
+				}
+			}
+		}
+	}
+	s.c.Eval(fmt.Sprintf("idle while level %d pending", s.maxLvl), true)
+	s.c.Count("idle-episode")
+	if idleWhileParked {
+		s.c.Report("O", "C14 idle-while-level-pending", "the volume reports itself idle while a lower-resolution level of a running mutation is not yet up to date",
+			fmt.Sprintf("max level %d; a mutating write was held before its level-%d computation; downres.BlockOnUpdating returned (idle) in that state\n%s\n%s", s.maxLvl, s.maxLvl, evidence, s.history()))
+	}
+	s.settle()
+	s.checkPyramid(p)
+}
+
 func (s *pyrSess) splitSV(p *pyrVer) bool {
 	seen := map[uint64]int{}
 	for _, sv := range p.vox {
@@ -530,6 +610,7 @@ func runC14(c *Ctx) {
 			if si != 1 || c.Thorough {
 				s.bodySplitEpisode(s.vers[0])
 			}
+			s.idleEpisode(s.vers[0])
 			for i := 0; i < steps; i++ {
 				o := s.open()
 				if len(o) == 0 || s.wedged {
